@@ -164,10 +164,17 @@ class Conn:
         return await self._until_starved()
 
     async def _until_starved(self) -> bytes:
+        last = None
         while True:
             await self._starved.wait()
             if self.closed or not self.buf or self.eof:
                 break
+            if last == len(self.buf):
+                # the server asked for more than is buffered (e.g. a literal
+                # longer than what was fed) and made no progress: it is
+                # blocked on client input, hand control back to the driver
+                break
+            last = len(self.buf)
             # server consumed only part of the buffer and asked for more
             # although data remain: loop again (it will find them).
             self._starved.clear()
